@@ -33,6 +33,7 @@ pub enum SvgdxError {
     LoopLimitError(u32, u32),
     DepthLimitExceeded(u32, u32),
     MultiError(ErrMap),
+    ParseError(String),
     Other,
 }
 pub type Result<T> = core::result::Result<T, SvgdxError>;
@@ -106,6 +107,13 @@ pub open spec fn pending_covers(orig: Seq<(OrderIndex, Tag)>, pending: Seq<(Orde
         succeeded(tr, from, (#[trigger] orig[i]).1) || exists|j: int| 0 <= j < pending.len() && (#[trigger] pending[j]).1 == orig[i].1
 }
 
+/// the retry loop gave up because a COMPLETE pass over everything still pending made no progress:
+/// from some point k on, no step succeeded, and every tag that never succeeded was tried after k
+pub open spec fn stalled(orig: Seq<(OrderIndex, Tag)>, tr: Seq<Gen>, from: int) -> bool {
+    exists|k: int| #![trigger tr.subrange(k, tr.len() as int)] from <= k <= tr.len()
+        && (forall|j: int| k <= j < tr.len() ==> !((#[trigger] tr[j]).outcome is Done))
+        && (forall|i: int| 0 <= i < orig.len() ==> succeeded(tr, from, (#[trigger] orig[i]).1) || exists|j: int| k <= j < tr.len() && (#[trigger] tr[j]).tag == orig[i].1)
+}
 pub proof fn lemma_succ_push(tr: Seq<Gen>, g: Gen, from: int, t: Tag)
     requires succeeded(tr, from, t)
     ensures succeeded(tr.push(g), from, t)
@@ -167,6 +175,9 @@ pub proof fn lemma_no_limit_push(tr: Seq<Gen>, g: Gen, from: int)
 //@ before <<<while !tags.is_empty() && remain.len() != tags.len() {>>>
 //@ | let ghost g_orig = tags@;
 //@ | let ghost g_from = context.tr@.len() as int;
+//@ before <<<for pair in tags.iter() {>>>
+//@ | let ghost g_pass = context.tr@.len() as int;
+//@ | let ghost mut g_done: nat = 0;
 //@ after <<<let (idx, t) = pair;>>>
 //@ | let ghost tr0 = context.tr@;
 //@ | let ghost rem0 = remain@;
@@ -178,6 +189,7 @@ pub proof fn lemma_no_limit_push(tr: Seq<Gen>, g: Gen, from: int)
 //@ |     assert(*pair == tags@[cur]);
 //@ |     assert(context.tr@ == tr0.push(g));
 //@ |     assert(g.tag == tags@[cur].1);
+//@ |     if g.outcome is Done { g_done = g_done + 1; }
 //@ |     if !context.in_specs {
 //@ |         lemma_covers_push(g_orig, tags@, tr0, g, g_from);
 //@ |         lemma_boxes_push(tr0, g, g_from, old(bbb).boxes());
@@ -197,7 +209,30 @@ pub proof fn lemma_no_limit_push(tr: Seq<Gen>, g: Gen, from: int)
 //@ |         }
 //@ |     }
 //@ | }
+//@ before <<<return gen_result.map(>>>
+//@ | proof {
+//@ |     let tr = context.tr@;
+//@ |     assert(tr[tr.len() - 1].outcome is LimitErr);     // only a limit error may end the pass early  @C10.retry.gives_up_only_when_stalled
+//@ |     assert(!no_limit_err(tr, g_from));
+//@ | }
+//@ before <<<return Err(SvgdxError::MultiError(element_errors));>>>
+//@ | proof {
+//@ |     if !context.in_specs {
+//@ |         let tr = context.tr@;
+//@ |         assert(g_done == 0);
+//@ |         assert(tr.subrange(g_pass, tr.len() as int).len() >= 0);
+//@ |         assert forall|i: int| 0 <= i < g_orig.len() implies succeeded(tr, g_from, (#[trigger] g_orig[i]).1)
+//@ |             || exists|j: int| g_pass <= j < tr.len() && (#[trigger] tr[j]).tag == g_orig[i].1 by {
+//@ |             if !succeeded(tr, g_from, g_orig[i].1) {
+//@ |                 let m = choose|m: int| 0 <= m < tags@.len() && (#[trigger] tags@[m]).1 == g_orig[i].1;
+//@ |                 assert(tr[g_pass + m].tag == tags@[m].1);
+//@ |             }
+//@ |         }
+//@ |         assert(stalled(g_orig, tr, g_from));
+//@ |     }
+//@ | }
 //@ ensures
+//@ - r is Err && !old(context).in_specs && no_limit_err(final(context).tr@, old(context).tr@.len() as int) ==> stalled(old(tags)@, final(context).tr@, old(context).tr@.len() as int)     @@C10.retry.gives_up_only_when_stalled
 //@ - final(context).in_specs == old(context).in_specs
 //@ - r is Ok && !old(context).in_specs ==> forall|i: int| 0 <= i < old(tags)@.len() ==>
 //@       succeeded(final(context).tr@, old(context).tr@.len() as int, (#[trigger] old(tags)@[i]).1)     @@C10.retry.complete
@@ -231,6 +266,11 @@ pub proof fn lemma_no_limit_push(tr: Seq<Gen>, g: Gen, from: int)
 //@ - !context.in_specs ==> forall|j: int| 0 <= j < it.index@ ==> succeeded(context.tr@, g_from, (#[trigger] tags@[j]).1)
 //@       || exists|m: int| 0 <= m < remain@.len() && (#[trigger] remain@[m]).1 == tags@[j].1
 //@ - !context.in_specs ==> no_limit_err(context.tr@, g_from)     @@C17.limit.final.loop @@C01.retry.limit_final.loop
+//@ - g_from == old(context).tr@.len() && g_orig == old(tags)@
+//@ - g_from <= g_pass && context.tr@.len() == g_pass + it.index@
+//@ - forall|j: int| 0 <= j < it.index@ ==> (#[trigger] context.tr@[g_pass + j]).tag == tags@[j].1
+//@ - !context.in_specs ==> remain@.len() + g_done == it.index@
+//@ - g_done == 0 ==> forall|j: int| g_pass <= j < context.tr@.len() ==> !((#[trigger] context.tr@[j]).outcome is Done)
 //@ - !context.in_specs ==> bbb.boxes() == old(bbb).boxes() + ok_boxes(context.tr@, g_from, context.tr@.len() as int)
 //@ - context.in_specs ==> bbb.boxes() == old(bbb).boxes()
 //@end
